@@ -16,6 +16,7 @@ import JanetModel.Depth.TailLemmas
 import JanetModel.Depth.Iterative
 import JanetModel.Depth.StackLemmas
 import JanetModel.Depth.Nest
+import JanetModel.Depth.StackDag
 import JanetModel.Gen.Depth
 import JanetModel.Depth.GuardCert
 import JanetModel.Depth.FiberStackLemmas
@@ -363,6 +364,124 @@ theorem stack_bytes_bounded (segs : List (List Nat))
 /-- non-vacuity of `stack_bytes_bounded`: the empty stack and a one-frame stack satisfy the hypotheses -/
 example : (([] : List (List Nat)).map (chainBytes JanetModel.Gen.DepthStack.frame)).sum = 0 := rfl
 example : IsChain JanetModel.Gen.DepthStack.cgS [0] := trivial
+
+
+/-! ### budgets composed along the SCC DAG (session 4) -/
+
+/-- ★ every reachability certificate: a call chain over ALL call edges of the module that starts in SCC `i` and contains
+    a function of SCC `j ≠ i` makes `(i, j)` a claimed pair (so the SCCs a native stack passes through form a path of
+    claimed pairs) -/
+theorem scc_reach_sound (c : ReachCert) (hok : reachOK c = true) (i j : Nat) (hi : i < c.members.length)
+    (hj : j < c.members.length) (hne : i ≠ j) (a : Nat) (l : List Nat) (ha : a ∈ membersOf c i)
+    (hc : ChainE c.edges (a :: l)) (b : Nat) (hb : b ∈ a :: l) (hbj : b ∈ membersOf c j) : (i, j) ∈ c.claimed :=
+  reach_sound c hok i j hi hj hne a l ha hc b hb hbj
+
+/-- ★ per-run obligation: the reachability sets of the 13 recursive SCCs are closed under every call edge of the
+    current module (8 000+ edges, 1 500 functions, bit masks) and unclaimed pairs are unreachable -/
+theorem cg_reach_ok : reachOK JanetModel.Gen.DepthStack.reachCert = true := by decide +kernel
+
+/-- ★ per-run obligation: the potential over the SCC DAG is valid, the per-SCC budgets are what the class limits and units
+    give, every guard's class is budgeted in its own SCC, and the SCC table fits the call graph -/
+theorem cg_scc_pot_ok :
+    sccPotOK JanetModel.Gen.DepthStack.sccBudget JanetModel.Gen.DepthStack.sccSpot
+      JanetModel.Gen.DepthStack.reachCert.claimed = true ∧
+    JanetModel.Gen.DepthStack.sccBudget.length = JanetModel.Gen.DepthStack.nSCC ∧
+    JanetModel.Gen.DepthStack.reachCert.members.length = JanetModel.Gen.DepthStack.nSCC ∧
+    JanetModel.Gen.DepthStack.sccOfNode.length = JanetModel.Gen.DepthStack.nV ∧
+    (List.range JanetModel.Gen.DepthStack.nSCC).all (fun i =>
+      JanetModel.Gen.DepthStack.sccBudget.getD i 0 == JanetModel.Gen.DepthStack.maxHead +
+        limitSum (JanetModel.Gen.DepthStack.sccLimits.getD i []) JanetModel.Gen.DepthStack.unit
+          JanetModel.Gen.DepthStack.nClasses) = true ∧
+    (List.range JanetModel.Gen.DepthStack.nV).all (fun v =>
+      !(isGuard JanetModel.Gen.DepthStack.cgS v) ||
+      ((JanetModel.Gen.DepthStack.sccLimits.getD (JanetModel.Gen.DepthStack.sccOfNode.getD v 0) []).getD
+          (clsOf JanetModel.Gen.DepthStack.cls v) 0 ==
+        (limitsOf JanetModel.Gen.DepthStack.classes JanetModel.Gen.DepthStack.nClasses).getD
+          (clsOf JanetModel.Gen.DepthStack.cls v) 0)) = true ∧
+    JanetModel.Gen.DepthStack.edges.all (fun e =>
+      JanetModel.Gen.DepthStack.sccOfNode.getD e.1 0 == JanetModel.Gen.DepthStack.sccOfNode.getD e.2 0) = true := by
+  decide +kernel
+
+/-- the budget along the heaviest path of the SCC DAG -/
+def dagBudgetTotal : Nat :=
+  JanetModel.Gen.DepthStack.transitBytes + JanetModel.Gen.DepthStack.libcAllowance +
+    listMax JanetModel.Gen.DepthStack.sccSpot
+
+/-- ★ per-run obligation: that budget is below the default 8 MiB stack -/
+theorem cg_dag_budget_ok : dagBudgetTotal < JanetModel.Gen.DepthStack.stackLimit := by decide +kernel
+
+/-- bytes of the segments of a stack, one `(SCC id, chain inside that SCC)` per SCC it passes through -/
+def segsBytes : List (Nat × List Nat) → Nat
+  | [] => 0
+  | s :: rest => chainBytes JanetModel.Gen.DepthStack.frame s.2 + segsBytes rest
+
+/-- ★ `stack_bytes_bounded_dag`: on the graph and frame sizes of the current source, a native stack whose segments lie in
+    SCCs along ONE path of the SCC DAG (`PathIn claimed`, which `scc_reach_sound` shows is how SCCs can follow each other)
+    and whose live guard frames per class stay within the class's limit in each segment, plus everything outside the
+    cycles and the libc allowance, is below 8 MiB.  Unlike `stack_bytes_bounded` the SCC budgets are not all added. -/
+theorem stack_bytes_bounded_dag (segs : List (Nat × List Nat))
+    (hseg : ∀ s ∈ segs, IsChain JanetModel.Gen.DepthStack.cgS s.2 ∧ ∀ v ∈ s.2, v < JanetModel.Gen.DepthStack.cgS.n)
+    (hid : ∀ s ∈ segs, s.1 < JanetModel.Gen.DepthStack.nSCC)
+    (hpath : PathIn JanetModel.Gen.DepthStack.reachCert.claimed (segs.map (·.1)))
+    (hcount : ∀ s ∈ segs, ∀ c, c < JanetModel.Gen.DepthStack.nClasses →
+      classCount JanetModel.Gen.DepthStack.cgS JanetModel.Gen.DepthStack.cls c s.2 ≤
+        (JanetModel.Gen.DepthStack.sccLimits.getD s.1 []).getD c 0) :
+    segsBytes segs + JanetModel.Gen.DepthStack.transitBytes + JanetModel.Gen.DepthStack.libcAllowance <
+      JanetModel.Gen.DepthStack.stackLimit := by
+  obtain ⟨hpot, hlen, _, _, hbud, _, _⟩ := cg_scc_pot_ok
+  -- each segment is within the budget of its SCC
+  have hone : ∀ s ∈ segs, chainBytes JanetModel.Gen.DepthStack.frame s.2 ≤ bud JanetModel.Gen.DepthStack.sccBudget s.1 := by
+    intro s hs
+    have h1 := JanetModel.Depth.segments_bytes_le_limits cg_pot_ok cg_units_ok [s.2]
+      (fun x hx => by simp at hx; subst hx; exact hseg s hs)
+      (fun c hc => by
+        have := hcount s hs c hc
+        simp only [List.flatten_cons, List.flatten_nil, List.append_nil]
+        exact this)
+    have h2 := (List.all_eq_true.mp hbud) s.1 (List.mem_range.mpr (hid s hs))
+    have h3 : JanetModel.Gen.DepthStack.sccBudget.getD s.1 0 = JanetModel.Gen.DepthStack.maxHead +
+        limitSum (JanetModel.Gen.DepthStack.sccLimits.getD s.1 []) JanetModel.Gen.DepthStack.unit
+          JanetModel.Gen.DepthStack.nClasses := eq_of_beq h2
+    simp only [List.map_cons, List.map_nil, List.sum_cons, List.sum_nil, List.length_cons, List.length_nil] at h1
+    unfold bud
+    rw [h3]
+    omega
+  have hsum : ∀ (l : List (Nat × List Nat)), (∀ s ∈ l, s ∈ segs) →
+      segsBytes l ≤ pathBudget JanetModel.Gen.DepthStack.sccBudget (l.map (·.1)) := by
+    intro l
+    induction l with
+    | nil => intro _; simp [segsBytes, pathBudget]
+    | cons s rest ih =>
+      intro hl
+      have h1 := hone s (hl s List.mem_cons_self)
+      have h2 := ih (fun x hx => hl x (List.mem_cons_of_mem _ hx))
+      simp only [segsBytes, List.map_cons, pathBudget]
+      omega
+  have htot : segsBytes segs ≤ listMax JanetModel.Gen.DepthStack.sccSpot := by
+    cases hs : segs with
+    | nil => simp [segsBytes]
+    | cons s rest =>
+      have h1 := hsum segs (fun _ h => h)
+      rw [hs] at h1 hpath hid
+      simp only [List.map_cons] at h1 hpath
+      have hr : ∀ i ∈ s.1 :: rest.map (·.1), i < JanetModel.Gen.DepthStack.sccBudget.length := by
+        intro i hi
+        rw [hlen]
+        rcases List.mem_cons.mp hi with hi | hi
+        · exact hi ▸ hid s List.mem_cons_self
+        · obtain ⟨x, hx, hxi⟩ := List.mem_map.mp hi
+          exact hxi ▸ hid x (List.mem_cons_of_mem _ hx)
+      have h2 := path_budget_le _ _ _ hpot (rest.map (·.1)) s.1 hr hpath
+      exact Nat.le_trans h1 (Nat.le_trans h2 (getD_le_listMax _ _))
+  have h3 := cg_dag_budget_ok
+  unfold dagBudgetTotal at h3
+  omega
+
+/-- non-vacuity: the claimed pairs are not empty and the empty stack satisfies the hypotheses; a two-SCC DAG example -/
+example : JanetModel.Gen.DepthStack.reachCert.claimed ≠ [] := by decide
+example : sccPotOK [100, 40] [140, 40] [(0, 1)] = true := by decide
+example : sccPotOK [100, 40] [139, 40] [(0, 1)] = false := by decide
+example : pathBudget [100, 40] [0, 1] = 140 := by decide
 
 /-! ### nested counter instances (session 3) -/
 
